@@ -340,20 +340,12 @@ where
                         }))),
                     ];
                     if let Some((_, default)) = defaults.iter().flatten().find(|(name, _)| {
+                        // `a` / `'a'`, `1` / `'1'` name the same property
                         name.eq_ignore_span(&prop_name)
-                            || if let (
-                                PropName::Ident(IdentName { sym: a, .. }),
-                                PropName::Str(Str { value: b, .. }),
+                            || matches!(
+                                (static_prop_name(name), static_prop_name(&prop_name)),
+                                (Some(a), Some(b)) if a == b
                             )
-                            | (
-                                PropName::Str(Str { value: a, .. }),
-                                PropName::Ident(IdentName { sym: b, .. }),
-                            ) = (&**name, &prop_name)
-                            {
-                                a == b
-                            } else {
-                                false
-                            }
                     }) {
                         props.push(PropOrSpread::Prop(Box::new(Prop::KeyValue(KeyValueProp {
                             key: PropName::Ident(quote_ident!("default")),
@@ -1352,6 +1344,21 @@ fn extract_prop_name(expr: Expr, computed: bool) -> PropName {
                 PropName::Ident(quote_ident!(""))
             }
         }
+    }
+}
+
+/// The property a statically known key names (object keys are strings: `1`, `1.0` and `'1'` are one key).
+fn static_prop_name(prop_name: &PropName) -> Option<String> {
+    match prop_name {
+        PropName::Ident(ident) => Some(ident.sym.to_string()),
+        PropName::Str(str) => Some(str.value.to_string()),
+        PropName::Num(num) => Some(if num.value.fract() == 0.0 && num.value.abs() < 1e21 {
+            format!("{}", num.value as i128)
+        } else {
+            num.value.to_string()
+        }),
+        PropName::BigInt(bigint) => Some(bigint.value.to_string()),
+        PropName::Computed(..) => None,
     }
 }
 
